@@ -48,13 +48,13 @@ package combinator
 //@ type RollbackLexer.Commit [C13]
 //@   params self
 //@   requires linv(self) && depth(self) >= 1
-//@   modifies depth(self)
-//@   ensures depth(self) == old(depth(self)) - 1 && linv(self)
+//@   modifies depth(self), saved_row(self)
+//@   ensures depth(self) == old(depth(self)) - 1 && savedKept(self, depth(self)) && linv(self)
 //@ type RollbackLexer.Rollback [C13]
 //@   params self
 //@   requires linv(self) && depth(self) >= 1
-//@   modifies depth(self), pos(self)
-//@   ensures depth(self) == old(depth(self)) - 1 && pos(self) == old(saved(self, depth(self) - 1)) && linv(self)
+//@   modifies depth(self), pos(self), saved_row(self)
+//@   ensures depth(self) == old(depth(self)) - 1 && pos(self) == old(saved(self, depth(self) - 1)) && savedKept(self, depth(self)) && linv(self)
 //
 // Every Parser keeps the transaction discipline: it returns with the snapshot stack exactly as it
 // found it (same depth, same saved positions), never un-reads the scanner, and a parser marked
